@@ -220,6 +220,7 @@ pub fn scenario(g: &mut G, ctx: &RunCtx) -> RunReport {
         rereads: if damage.is_empty() { 0 } else { g.below(3) as usize },
         read_timeout_ms: 30_000,
         extra_headers: headers,
+        read_api: 0,
         damage: damage.to_string(),
         cut_at: None,
     };
